@@ -320,7 +320,11 @@ def common_hypernyms(
     """
     from_self = _hypernym_paths(synset, simulate_root, True)
     from_other = _hypernym_paths(other, simulate_root, True)
-    common = set(flatten(from_self)).intersection(flatten(from_other))
+    # collect in path order before the (stable) sort: inferred synsets
+    # and the simulated root all compare equal to each other, and their
+    # relative order must not depend on the iteration order of a set
+    other_hypernyms = set(flatten(from_other))
+    common = [ss for ss in unique_list(flatten(from_self)) if ss in other_hypernyms]
     return sorted(common)
 
 
